@@ -154,6 +154,8 @@ mod push;
 mod registry;
 mod value;
 mod vec;
+#[cfg(prometheus_verif)]
+pub mod verif_sync;
 
 // Public for generated code.
 #[doc(hidden)]
